@@ -665,6 +665,43 @@ fn templates(ctx: &mut Ctx) {
         }
         _ => {}
     }
+    if matches!(ctx.prop.as_str(), "C05" | "C06" | "C08" | "C12" | "C16" | "C13" | "C03" | "C01") {
+        // a scroll region squeezed by set_size: DECSTBM never accepts a one-line region, a resize to exactly
+        // top+1 lines makes one ([t,t], t >= 1), a resize to fewer lines drops the region, to more keeps two
+        // lines — then every operation that looks at the margins, from the (new) last line and the one above
+        let ops: [&str; 14] = [
+            "\x1b[A", "\x1b[2F", "\x1b[B", "\x1b[E", "\n", "\x1bM", "\x1b[L", "\x1b[M", "\x1b[S", "\x1b[T", "0123456789X", "\x1b[9;1H\x1b[A",
+            "\x1b[?6h\x1b[1;1Hq", "\x1b[H\x1b[J",
+        ];
+        for (rows, cols, sb) in [(6u64, 10u64, 0u64), (5, 4, 3)] {
+            for t in 1..rows - 1 {
+                for new_rows in [t, t + 1, t + 2] {
+                    if new_rows == 0 || (!ctx.thorough && (t + new_rows + rows) % 2 == 1) {
+                        continue;
+                    }
+                    ctx.case_start = ctx.sess.ops.len();
+                    ctx.sess.new_case(rows, cols, sb, "none", "template");
+                    let setup = format!("ab\r\ncd\r\nef\r\ngh\r\nij\x1b[{};{}r", t + 1, rows);
+                    ctx.sess.checked(&format!("P {}", hex(setup.as_bytes())), "Squeeze");
+                    ctx.sess.checked(&format!("Z {new_rows} {cols}"), "Z");
+                    ctx.sess.checked("D", "D:Z");
+                    for op in ops {
+                        let place = format!("\x1b[{};2H", new_rows);
+                        ctx.sess.checked(&format!("P {}", hex(format!("{place}{op}").as_bytes())), "Squeeze");
+                        ctx.sess.checked("D", "D:Squeeze");
+                    }
+                    ctx.sess.checked("I", "I");
+                    ctx.sess.checked("T", "T");
+                    ctx.sess.checked("F state", "F");
+                    ctx.sess.checked("B 2", "B");
+                    ctx.sess.checked("D", "D:B");
+                    let mut dirty = None;
+                    let mut chain = None;
+                    run_oracle(ctx, &mut dirty, &mut chain);
+                }
+            }
+        }
+    }
     if matches!(ctx.prop.as_str(), "C11" | "C13" | "C03" | "C05" | "C07") {
         // both grids hold wide characters; an operation runs on ONE grid; then, on the OTHER grid, each half
         // of a wide character is overwritten / erased / shifted — whatever the crate remembers about wide
